@@ -490,3 +490,42 @@ def gen_c02(r, knobs=None):
             if r.random() < 0.3:
                 b.op(op='insp', cid=cid, kind='data_path')
     return b.scenario()
+
+
+def gen_c13(r, knobs=None):
+    """MultiChains over 2-4 roots with overlapping pipelines and differing parameters/contexts; requests and forces
+    interleaved across members; standalone chains of the same roots alongside; restarts."""
+    kn = {'n_roots': (2, 4), 'n_pipes': (1, 4), 'p_override': 0.5}
+    kn.update(knobs or {})
+    world = gen.gen_world(r, kn)
+    b = B(world, r)
+    for pi in range(r.randint(1, 3)):
+        b.proc(hs=r.choice([0, 1]))
+        live = []
+        mids = []
+        for _ in range(r.randint(3, 12)):
+            t = r.random()
+            if not mids or t < 0.12:
+                cids = _mbuild(b, r)
+                live += cids
+                mids.append(cids[0].split('/')[0])
+            elif t < 0.2:
+                root = r.randrange(len(world['roots']))
+                live.append(b.build(root, _equiv_render(b, root)))
+            elif t < 0.7:
+                cid = r.choice(live)
+                b.req(cid, r.choice(b.names(cid)))
+            elif t < 0.85:
+                mid = r.choice(mids)
+                members = b.multi_members[mid]
+                common = set(b.names(members[0]))
+                for m in members[1:]:
+                    common &= set(b.names(m))
+                if common:
+                    ns = r.sample(sorted(common), min(len(common), r.choice([1, 1, 2])))
+                    others = [c for c in live if c not in members]
+                    dele = r.random() < 0.3 and all(b.delete_ok(m, ns, others + [m]) for m in members)
+                    b.op(op='mforce', mid=mid, tasks=ns, names=ns, recompute=r.random() < 0.4, delete=dele)
+            else:
+                _inspect(b, r.choice(live), ['has_data', 'flags', 'data_path'])
+    return b.scenario()
